@@ -88,7 +88,12 @@ struct SmodelsInput::NodeTab {
 };
 SmodelsInput::SmodelsInput(AbstractProgram& out, const Options& opts, AtomTable* syms) : out_(out), atoms_(syms), nodes_(0), opts_(opts), delSyms_(false) {}
 SmodelsInput::~SmodelsInput() { if (delSyms_) delete atoms_; delete nodes_; }
-void SmodelsInput::doReset() {}
+void SmodelsInput::doReset() {
+	// the symbol and node tables belong to one program (shared by its steps only): do not carry them over to the next input
+	delete nodes_;
+	nodes_ = 0;
+	if (delSyms_) { delete atoms_; atoms_ = 0; }
+}
 bool SmodelsInput::doAttach(bool& inc) {
 	char n = stream()->peek();
 	if (BufferedStream::isDigit(n) && ((inc = (n == '9')) == false || opts_.claspExt)) {
